@@ -360,6 +360,10 @@ func (s *grpcServer) Write(srv bytestream.ByteStream_WriteServer) error {
 	var resp bytestream.WriteResponse
 	pr, pw := io.Pipe()
 
+	// Unblock the receiving goroutine (which might be stuck writing to pw)
+	// whichever way we return.
+	defer func() { _ = pr.Close() }()
+
 	putResult := make(chan error, 1)
 	recvResult := make(chan error, 1)
 	resourceNameChan := make(chan string, 1)
